@@ -122,9 +122,35 @@ def rule_no_unordered(ctx):
     # closure types with derived Serialize are covered by the derive's serialize_field calls.
 
 
+SEQ_CONTAINERS = ("alloc::vec::Vec", "std::collections::hash::set::HashSet",
+                  "alloc::collections::btree::set::BTreeSet", "alloc::collections::vec_deque::VecDeque")
+
+
+def serde_shape(ty):
+    """type string -> shape in the serde data model (sequence containers are all `seq<T>`)"""
+    ty = ty.replace("&mut ", "").replace("&", "").strip()
+    for c in SEQ_CONTAINERS:
+        if ty.startswith(c + "<") and ty.endswith(">"):
+            inner = ty[len(c) + 1:-1]
+            # first generic argument only (hasher / allocator parameters are irrelevant)
+            depth = 0
+            for i, ch in enumerate(inner):
+                if ch == "<":
+                    depth += 1
+                elif ch == ">":
+                    depth -= 1
+                elif ch == "," and depth == 0:
+                    inner = inner[:i]
+                    break
+            return "seq<%s>" % serde_shape(inner)
+    if ty.startswith("[") and ty.endswith("]") and ";" not in ty:
+        return "seq<%s>" % serde_shape(ty[1:-1])
+    return strip_generics(ty)
+
+
 def elem_type(ev):
     g = ev[4]
-    return strip_generics(g[-1]).replace("&", "").strip() if g else "?"
+    return serde_shape(g[-1]) if g else "?"
 
 
 def writer_rows(ctx, path, selfname="self"):
